@@ -245,7 +245,12 @@ func (g *gen) fork(c *chainInfo, f int, kind int) []int {
 		base := g.specs[c.blk[h]]
 		s := spec{chain: c.cid, h: int64(h), t: base.t, vals: base.vals, next: base.next, last: last, app: c.app + 1, basic: 1, commit: 1}
 		switch kind {
-		case 0: // equivocation: same sets, all sign again
+		case 5: // equivocation proper: same validator/app/consensus/results hashes, only the time
+			// (and the last-block link) differ, so the evidence is of the non-lunatic kind
+			s.app = c.app
+			s.t = base.t + 1
+			s.sign = g.signers(g.vsP[base.vals], true)
+		case 0: // "equivocation" with another app hash: same sets, all sign again
 			s.sign = g.signers(g.vsP[base.vals], true)
 		case 1: // coalition of random size signs over the genuine sets
 			s.sign = g.signers(g.vsP[base.vals], false)
@@ -515,7 +520,7 @@ func genRandom(r *rand.Rand) core.Case {
 	if f < 1 {
 		f = 1
 	}
-	kind := r.Intn(5)
+	kind := r.Intn(6)
 	forked := g.fork(c, f, kind)
 	target := 1 + r.Intn(n)
 	var primary int
@@ -602,7 +607,7 @@ func genDetector(r *rand.Rand, emit func(core.Case)) {
 		g := newGen(rand.New(rand.NewSource(seed)))
 		n := 3 + g.r.Intn(4)
 		c := g.honestChain(n, 1, 0, []int{0, 50}[g.r.Intn(2)])
-		forked := g.fork(c, 1, []int{0, 0, 1, 2}[g.r.Intn(4)])
+		forked := g.fork(c, 1, []int{0, 5, 5, 1, 2}[g.r.Intn(5)])
 		var primary int
 		if g.r.Intn(3) == 0 {
 			primary = g.prov(1, blocksOf(forked, 1, n), "")
@@ -666,6 +671,27 @@ func genKnownShapes(r *rand.Rand, emit func(core.Case)) {
 			emit(core.Case{Kind: "shape-decoy+honest+accomplice-witness", Ops: ops})
 		}
 	}
+	{ // equivocation at a height whose total voting power differs from the last common block's:
+		// the evidence must carry the attack height's totals (the full node checks them there)
+		g := newGen(r)
+		v1 := g.vs([][2]int{{0, 2}, {1, 2}, {2, 2}})
+		v2 := g.vs([][2]int{{0, 5}, {1, 2}, {2, 2}})
+		all := []int{0, 1, 2}
+		b1 := g.blk(spec{chain: 1, h: 1, t: 1000, vals: v1, next: v1, basic: 1, commit: 1, sign: all})
+		b2 := g.blk(spec{chain: 1, h: 2, t: 2000, vals: v1, next: v2, last: b1, basic: 1, commit: 1, sign: all})
+		b3 := g.blk(spec{chain: 1, h: 3, t: 3000, vals: v2, next: v2, last: b2, basic: 1, commit: 1, sign: all})
+		b4 := g.blk(spec{chain: 1, h: 4, t: 4000, vals: v2, next: v2, last: b3, basic: 1, commit: 1, sign: all})
+		f4 := g.blk(spec{chain: 1, h: 4, t: 4001, vals: v2, next: v2, last: b3, basic: 1, commit: 1, sign: all})
+		for _, seq := range []int{0, 1} {
+			primary := g.prov(1, []int{b1, b2, b3, f4}, "")
+			w := g.prov(1, []int{b1, b2, b3, b4}, "")
+			ops := append([]string{}, g.ops...)
+			ops = append(ops, fmt.Sprintf("new chain=1 period=1000000000 h=1 hash=%d seq=%d num=1 den=3 drift=2 prune=0 primary=%d wit=%d order=%d,%d",
+				b1, seq, primary, w, primary, w))
+			ops = append(ops, fmt.Sprintf("verify h=4 now=4100 order=%d,%d", primary, w))
+			emit(core.Case{Kind: "shape-equivocation-after-power-change", Ops: ops})
+		}
+	}
 	{ // trust level above 2/3, no churn, header signed by more than 2/3 but not more than the level,
 		// no adjacent path on offer
 		g := newGen(r)
@@ -710,7 +736,7 @@ func genLifecycle(r *rand.Rand) core.Case {
 	g := newGen(r)
 	n := 5 + r.Intn(7)
 	c := g.honestChain(n, 1, 0, []int{0, 40}[r.Intn(2)])
-	forked := g.fork(c, 1+r.Intn(n-1), []int{0, 1, 2}[r.Intn(3)])
+	forked := g.fork(c, 1+r.Intn(n-1), []int{0, 1, 2, 5}[r.Intn(4)])
 	full := blocksOf(c.blk, 1, n)
 	p1 := g.prov(1, full, "")
 	var p2 int
